@@ -34,7 +34,7 @@ RULE = (
     "CorrelationRemover, AdversarialFairnessClassifier, AdversarialFairnessRegressor}, a configuration, a pool of 2-3 data "
     "sets (different rows/groups/width) and a history of 2-8 operations from {fit(D_k), predict-type(X', seed), "
     "predict(X', None), restart via pickle, clone, ambient RNG perturbation} under a planned clock; the first seeds "
-    "enumerate every history of length <=3 over the operation kinds per class. After every operation the estimator is "
+    "enumerate every history of length <=3 (thorough: <=4) over {fit(D1), fit(D2), predict, restart, clone} per class. After every operation the estimator is "
     "compared with a fresh identically configured estimator fitted once on the last data set. Non-trivial = >=1 "
     "operation executed and >=1 simulator decision consumed (clock read, restart, ambient perturbation); distinct = "
     "distinct (class, fitted?, last data set, origin in {ctor, clone, restart}, #fits<=2) x operation-kind transitions "
@@ -63,6 +63,26 @@ def _cls_dataset(rng, both_labels_per_group):
     return {"rows": rows}
 
 
+def _derived_dataset(rng, base, k):
+    """Same feature rows (and, at run time, the very same X object) as data set k, with other
+    labels and/or another grouping - e.g. auditing one data set against a second attribute."""
+    rows = base["rows"]
+    groups = sorted({r[1] for r in rows})
+    for _ in range(50):
+        mode = rng.choice(["groups", "labels", "both"])
+        new = []
+        for (x, g, y) in rows:
+            if mode in ("groups", "both") and rng.random() < 0.5:
+                g = rng.choice(groups)
+            if mode in ("labels", "both") and rng.random() < 0.3:
+                y = 1 - y
+            new.append((x, g, y))
+        gs = {r[1] for r in new}
+        if len(gs) >= 2 and all({r[2] for r in new if r[1] == g} == {0, 1} for g in gs) and new != rows:
+            return {"rows": new, "x_from": k}
+    return {"rows": rows, "x_from": k}
+
+
 def _cr_dataset(rng, width):
     n = rng.randint(6, 20)
     return {"X": [[round(rng.uniform(-2, 2), 3) for _ in range(width)] for _ in range(n)]}
@@ -80,14 +100,15 @@ def _adv_dataset(rng, d, regression):
     return {"X": X, "y": y, "a": a}
 
 
-def _history(rng, cls, index, ndata):
+def _history(rng, cls, index, ndata, tier="quick"):
     kinds = ["fit0", "fit1", "predict", "predict_none", "restart", "clone", "ambient"]
     if ndata > 2:
         kinds.append("fit2")
     if cls in ("ADVC", "ADVR"):
         kinds.remove("restart")
     # stratified: every history of length <= 3 (per class) first
-    small = [h for L in (1, 2, 3) for h in itertools.product(["fit0", "fit1", "predict", "restart", "clone"], repeat=L)]
+    lengths = (1, 2, 3, 4) if tier == "thorough" else (1, 2, 3)
+    small = [h for L in lengths for h in itertools.product(["fit0", "fit1", "predict", "restart", "clone"], repeat=L)]
     j = index // len(CLASSES)
     if j < len(small):
         h = [k for k in small[j] if not (k == "restart" and cls in ("ADVC", "ADVR"))]
@@ -111,14 +132,19 @@ def gen_plan(seed, index, tier):
                        "objective": rng.choice(["accuracy_score", "balanced_accuracy_score"]),
                        "grid_size": rng.choice([5, 10, 40]), "flip": rng.random() < 0.3, "prefit": rng.random() < 0.3}
         plan["data"] = [_cls_dataset(rng, True) for _ in range(ndata)]
+        if rng.random() < 0.35:
+            plan["data"][1] = _derived_dataset(rng, plan["data"][0], 0)
     elif cls in ("EG", "GS"):
         plan["cfg"] = {"base": base, "moment": rng.choice(["DP", "EO", "TPR", "ERP"]), "bound": rng.choice([0.01, 0.05])}
         if cls == "EG":
             plan["cfg"].update(eps=rng.choice([0.05, 0.1]), max_iter=rng.choice([3, 6, 10]),
-                               nu=rng.choice([None, 1e-3, 0.05, 0.05]), eta0=2.0, lp=rng.random() < 0.6)
+                               nu=rng.choice([None, 1e-3, 0.05, 0.05]), eta0=2.0, lp=rng.random() < 0.6,
+                               objective_costs=rng.choice([None, None, {"fp": 1.0, "fn": 1.0}, {"fp": 0.3, "fn": 0.7}]))
         else:
             plan["cfg"].update(grid_size=rng.choice([3, 6, 10]), grid_limit=rng.choice([1.0, 2.0]), cw=rng.choice([0.25, 0.5]))
         plan["data"] = [_cls_dataset(rng, True) for _ in range(ndata)]
+        if rng.random() < 0.35:
+            plan["data"][1] = _derived_dataset(rng, plan["data"][0], 0)
     elif cls == "CR":
         widths = [rng.randint(3, 6) for _ in range(ndata)]
         if rng.random() < 0.5:
@@ -133,7 +159,7 @@ def gen_plan(seed, index, tier):
                        "epochs": rng.choice([1, 2]), "batch_size": rng.choice([-1, 4, 8]), "rs": rng.randint(0, 10**6),
                        "constraints": rng.choice(["demographic_parity", "equalized_odds"]), "d": d}
         plan["data"] = [_adv_dataset(rng, d, cls == "ADVR") for _ in range(ndata)]
-    plan["ops"] = _history(rng, cls, index, ndata)
+    plan["ops"] = _history(rng, cls, index, ndata, tier)
     plan["seeds"] = [rng.randint(0, 2**31 - 1) for _ in range(3)]
     plan["ambient"] = [[rng.choice(["np_reseed", "np_consume", "torch_reseed"]), rng.randint(0, 2**31 - 1)] for _ in range(8)]
     plan["clock"] = [[rng.choice(["fwd", "fwd", "back", "stall"]), rng.choice([1e-3, 1.0, 100.0, 1e6])] for _ in range(60)]
@@ -153,12 +179,19 @@ def _base_learner(kind, for_to=False):
     return seams.ScoreStub(col=0, method="predict_proba") if for_to else seams.ExactClassifier(col=0, log_payload=False)
 
 
-def _xy(ds):
+def _xy(plan, k):
+    """(X, y, groups) of data set k.  X objects are cached per run, and a derived data set
+    (x_from) hands out the very same X object as its base."""
+    ds = plan["data"][k]
+    ctx = kernel.current()
+    cache = ctx.scratch.setdefault("xcache", {})
+    xkey = ds.get("x_from", k)
+    if xkey not in cache:
+        cache[xkey] = pd.DataFrame({"x": [float(r[0]) for r in plan["data"][xkey]["rows"]]})
     rows = ds["rows"]
-    X = pd.DataFrame({"x": [float(r[0]) for r in rows]})
     y = np.array([r[2] for r in rows])
     g = np.array([f"g{r[1]}" for r in rows])
-    return X, y, g
+    return cache[xkey], y, g
 
 
 def factory(plan):
@@ -168,7 +201,7 @@ def factory(plan):
 
         base = _base_learner(cfg["base"], for_to=True)
         if cfg["prefit"]:
-            X, y, g = _xy(plan["data"][0])
+            X, y, g = _xy(plan, 0)
             base.fit(X, y)
         return ThresholdOptimizer(estimator=base, constraints=cfg["constraints"], objective=cfg["objective"],
                                   grid_size=cfg["grid_size"], flip=cfg["flip"], prefit=cfg["prefit"],
@@ -176,9 +209,12 @@ def factory(plan):
     if cls == "EG":
         from fairlearn.reductions import ExponentiatedGradient
 
+        from fairlearn.reductions import ErrorRate
+
+        objective = ErrorRate(costs=dict(cfg["objective_costs"])) if cfg.get("objective_costs") else None
         return ExponentiatedGradient(_base_learner(cfg["base"]), make_moment(cfg["moment"], "diff", cfg["bound"], 1.0),
-                                     eps=cfg["eps"], max_iter=cfg["max_iter"], nu=cfg["nu"], eta0=cfg["eta0"],
-                                     run_linprog_step=cfg["lp"])
+                                     objective=objective, eps=cfg["eps"], max_iter=cfg["max_iter"], nu=cfg["nu"],
+                                     eta0=cfg["eta0"], run_linprog_step=cfg["lp"])
     if cls == "GS":
         from fairlearn.reductions import GridSearch
 
@@ -202,7 +238,7 @@ def do_fit(plan, est, k):
     cls = plan["cls"]
     ds = plan["data"][k]
     if cls in ("TO", "EG", "GS"):
-        X, y, g = _xy(ds)
+        X, y, g = _xy(plan, k)
         return est.fit(X, y, sensitive_features=g)
     if cls == "CR":
         return est.fit(_cr_X(plan, ds))
@@ -322,17 +358,24 @@ def execute(plan, ctx):
     nu_none = cls == "EG" and plan["cfg"].get("nu") is None
     refs = {}
 
-    def reference(k):
-        if k not in refs:
+    def reference(k, via_clone):
+        """A fresh, identically configured estimator fitted once on data set k.  After a clone
+        operation 'identically configured' means sklearn.clone of the factory's estimator (clone
+        re-creates the wrapped estimator unfitted, which matters for prefit=True)."""
+        key = (k, via_clone)
+        if key not in refs:
             ctx.clock.force_stall = True
             fresh = factory(plan)
+            if via_clone:
+                fresh = clone(fresh)
             with ctx.clock_installed():
                 ok, ret, site = ctx.call(do_fit, plan, fresh, k)
             ctx.clock.force_stall = False
-            refs[k] = (ok, fresh, ret, site)
-        return refs[k]
+            refs[key] = (ok, fresh, ret, site)
+        return refs[key]
 
     est = factory(plan)
+    cloned = False
     fitted_on = None
     origin = "ctor"
     nfits = 0
@@ -352,15 +395,18 @@ def execute(plan, ctx):
             k = int(op[3:])
             if k >= len(plan["data"]):
                 k = 0
-            okr, fresh, rret, rsite = reference(k)
-            if not okr:
-                # a fresh estimator cannot fit this data set at all: outside the property (no history involved)
-                ctx.probe("reference_fit_failed")
-                ctx.event("op", i=opi, op=op, note="reference failed")
-                return
+            okr, fresh, rret, rsite = reference(k, cloned)
             before = params_snapshot(est)
             with ctx.clock_installed():
                 ok, ret, site = ctx.call(do_fit, plan, est, k)
+            if not okr:
+                # a fresh identically configured estimator cannot fit this data set either (e.g. clone of a
+                # prefit=True ThresholdOptimizer holds an unfitted base estimator): no history involved
+                ctx.probe("reference_fit_failed")
+                ctx.event("op", i=opi, op=op, note="reference failed", same=(not ok and type(ret) is type(rret)))
+                if ok:
+                    ctx.probe("history_fit_succeeded_where_reference_failed")
+                return
             if not ok:
                 known = ctx.fail("C19.fit_raised",
                                  f"{cls}: {'re' if nfits else ''}fit (history {hist}) raised {type(ret).__name__}: {ret} at {site}; "
@@ -467,6 +513,7 @@ def execute(plan, ctx):
                 ctx.fail("C19.clone_raised", f"{cls}: sklearn.clone raised {type(ret).__name__}: {ret}", dict(sigbase, exc=type(ret).__name__))
                 return
             est = ret
+            cloned = True
             fitted_on = None
             origin = "clone"
             last_answers = {}
